@@ -57,7 +57,8 @@ Record case := mk_case {
   c_certlen : Z;                  (* length of the sender's certificate *)
   c_prefix : bytes; c_fill : fill; c_suffix : bytes;   (* node id + message = prefix ++ filler ++ suffix *)
   c_sigkey : bytes;               (* sender's derived signing key (byte-exact cases) *)
-  c_exact : bool }.
+  c_exact : bool;
+  c_writer : bool                 (* through the server's MessageWriter whose negotiated send buffer size is c_max *) }.
 
 Definition data_of (c : case) : bytes := c_prefix c ++ fill_bytes (c_fill c) ++ c_suffix c.
 Definition skey (c : case) : Z := 16 * c_sks c + 1.
@@ -110,11 +111,17 @@ Fixpoint run_chunks (P : prims) (fx : fixes) (c : case) (cs : list bytes) : list
       (o ++ os, match rc, rcs with Some x, Some xs => Some (x :: xs) | _, _ => None end)
   end.
 
-Definition run_with (fx : fixes) (c : case) : list Z :=
+(* [wfix]: the writer chunks with the negotiated size (the repaired MessageWriter) *)
+Definition chunks_of_case (wfix : bool) (fx : fixes) (c : case) : res (list bytes) :=
+  if c_writer c
+  then writer_chunks wfix fx (sender_of c) (c_mty c) (c_seq c - 1) (c_req c) (c_max c) (data_of c)
+  else encode fx (sender_of c) (c_mty c) (c_seq c) (c_req c) (c_max c) (data_of c).
+
+Definition run_gen (wfix : bool) (fx : fixes) (c : case) : list Z :=
   let P := toy_prims (c_exact c) in
   let S := sender_of c in
   let R := receiver_of c in
-  match encode fx S (c_mty c) (c_seq c) (c_req c) (c_max c) (data_of c) with
+  match chunks_of_case wfix fx c with
   | Ok cs =>
       let '(o, rcs) := run_chunks P fx c cs in
       [0; Z.of_nat (length cs)] ++ o ++
@@ -126,6 +133,7 @@ Definition run_with (fx : fixes) (c : case) : list Z :=
       end
   | r => [code r]
   end.
+Definition run_with (fx : fixes) (c : case) : list Z := run_gen true fx c.
 Definition run (c : case) : list Z := run_with current c.
 
 (* ---------------- the property as a predicate on an output ---------------- *)
@@ -177,10 +185,11 @@ Definition validb (c : case) : bool :=
    | _, _ => false
    end)
   && ((c_max c =? 0) || (src_min_chunk <=? c_max c))
+  && (negb (c_writer c) || (src_min_chunk <=? c_max c))
   && u32_ok (c_chan c) && u32_ok (c_token c) && u32_ok (c_req c)
   && (0 <=? c_seq c) && (c_seq c + len (data_of c) <? U32)
   && key_ok (c_policy c) (c_sks c) && key_ok (c_policy c) (c_rks c)
-  && (c_sks c <? c_certlen c) && (c_certlen c <=? 4000) && (4 <=? c_certlen c)
+  && (is_none (c_policy c) || ((c_sks c <? c_certlen c) && (c_certlen c <=? 4000) && (4 <=? c_certlen c)))
   && forallb byte_ok (c_prefix c) && forallb byte_ok (c_suffix c) && (1 <=? len (c_prefix c))
   && (0 <=? f_len (c_fill c)) && (0 <=? f_lo (c_fill c)) && (1 <=? f_m (c_fill c)) && (f_lo (c_fill c) + f_m (c_fill c) <=? 256)
   && (len (data_of c) <? 16777216).
@@ -198,4 +207,6 @@ Module Legacy.
   Definition run_budget (c : case) : list Z := run_with (upd current true false true) c.
   (* before "chunk body budget of asymmetric (OpenSecureChannel) chunks ignored RSA block expansion and padding" *)
   Definition run_opn_budget (c : case) : list Z := run_with (upd current true true false) c.
+  (* before "server responses were never chunked: the writer ignored the negotiated send buffer size" *)
+  Definition run_writer (c : case) : list Z := run_gen false current c.
 End Legacy.
